@@ -217,11 +217,10 @@ def checkOrthVis (c : Case) : Option (Bool × String) × List (String × Nat) :=
   match firstMissing impl model, firstMissing model impl with
   | none, none =>
     -- vertex level: the dumped graph must be joined wherever two of its lines meet (`crossing_shared`);
-    -- outside the property's scope (touching / overlapping routing boxes) a split is only counted
+    -- since the fix in /repo (insertBreakpointsFinish before addEdgeHorizontal) this holds in every scene,
+    -- touching / overlapping routing boxes included
     match splitNode c with
-    | some m =>
-      if separatedBoxes s then return (some (false, s!"orthvis: {m}"), stats)
-      else return (none, ("orthvis.split-node-at-touching-boxes", 1) :: stats)
+    | some m => return (some (false, s!"orthvis: {m}"), stats)
     | none =>
       -- the long-range visibility flags (only where the vertex level is sound, i.e. no split vertices)
       -- a connector end point exactly on a box corner puts a plain dummy vertex and a shape-corner vertex
@@ -231,9 +230,7 @@ def checkOrthVis (c : Case) : Option (Bool × String) × List (String × Nat) :=
         (q.x == r.x0 || q.x == r.x1) && (q.y == r.y0 || q.y == r.y1)
       if onCorner then return (none, ("orthvis.flags-skipped-end-point-on-box-corner", 1) :: stats)
       match flagsDiff c s with
-      | some m =>
-        if separatedBoxes s then return (some (false, s!"orthvis: {m}"), ("orthvis.flags-compared", 1) :: stats)
-        else return (none, ("orthvis.flags-differ-at-touching-boxes", 1) :: stats)
+      | some m => return (some (false, s!"orthvis: {m}"), ("orthvis.flags-compared", 1) :: stats)
       | none => return (none, ("orthvis.flags-compared", 1) :: ("orthvis.flags-equal", 1) :: stats)
   | some e, _ =>
     return (some (false, s!"orthvis: libavoid's graph has edge {e.str}, the model's has not ({impl.size} vs {model.size} edges)"), stats)
